@@ -65,24 +65,24 @@ var good = []pair{
 }
 
 var bad = []pair{
-	{"a : b", expr.Eq("b", "a"), ""},                                   // reordered
-	{"a : b", expr.Eq("a", "c"), ""},                                   // invented value
-	{"a : 5", expr.Eq("a", "5"), ""},                                   // mistyped: number became a string
-	{`a : "5"`, expr.Eq("a", 5), ""},                                   // mistyped: quoted string became a number
-	{"a b", expr.Lit("a"), ""},                                         // dropped term
-	{"a b", expr.AND("a", expr.AND("b", "b")), ""},                     // duplicated term
-	{"a AND b", expr.OR("a", "b"), ""},                                 // operator consumed by the wrong node kind
-	{"( ( ) NOT a )", expr.NOT("a"), ""},                               // empty group dropped
-	{"a ~ + 5", expr.FUZZY("a", 5), ""},                                // operator token dropped
-	{"a : [ 1 TO 5 ]", expr.Rang("a", 1, 5, false), ""},                // inclusivity
-	{"a : [ 1 TO 5 ]", expr.Rang("a", 5, 1, true), ""},                 // bounds swapped
-	{"NOT a", expr.MUSTNOT("a"), ""},                                   // wrong unary
-	{"a ~ 2", expr.FUZZY("a", 3), ""},                                  // wrong distance
+	{"a : b", expr.Eq("b", "a"), ""},                                              // reordered
+	{"a : b", expr.Eq("a", "c"), ""},                                              // invented value
+	{"a : 5", expr.Eq("a", "5"), ""},                                              // mistyped: number became a string
+	{`a : "5"`, expr.Eq("a", 5), ""},                                              // mistyped: quoted string became a number
+	{"a b", expr.Lit("a"), ""},                                                    // dropped term
+	{"a b", expr.AND("a", expr.AND("b", "b")), ""},                                // duplicated term
+	{"a AND b", expr.OR("a", "b"), ""},                                            // operator consumed by the wrong node kind
+	{"( ( ) NOT a )", expr.NOT("a"), ""},                                          // empty group dropped
+	{"a ~ + 5", expr.FUZZY("a", 5), ""},                                           // operator token dropped
+	{"a : [ 1 TO 5 ]", expr.Rang("a", 1, 5, false), ""},                           // inclusivity
+	{"a : [ 1 TO 5 ]", expr.Rang("a", 5, 1, true), ""},                            // bounds swapped
+	{"NOT a", expr.MUSTNOT("a"), ""},                                              // wrong unary
+	{"a ~ 2", expr.FUZZY("a", 3), ""},                                             // wrong distance
 	{"a : ( x OR y )", expr.IN("a", expr.LIST(expr.Lit("y"), expr.Lit("x"))), ""}, // list order
-	{"a : b*", expr.Eq("a", expr.Lit("b*")), ""},                       // pattern became a plain value
-	{"a", expr.Eq(expr.Column("foo"), "a"), ""},                        // default-field wrap without a default field
-	{"( a", expr.Lit("a"), ""},                                         // unpaired bracket
-	{"a : b c", expr.Eq("a", "b"), ""},                                 // trailing term dropped
+	{"a : b*", expr.Eq("a", expr.Lit("b*")), ""},                                  // pattern became a plain value
+	{"a", expr.Eq(expr.Column("foo"), "a"), ""},                                   // default-field wrap without a default field
+	{"( a", expr.Lit("a"), ""},                                                    // unpaired bracket
+	{"a : b c", expr.Eq("a", "b"), ""},                                            // trailing term dropped
 }
 
 func TestMatcherAccepts(t *testing.T) {
@@ -103,18 +103,18 @@ func TestMatcherRejects(t *testing.T) {
 
 func TestDecode(t *testing.T) {
 	for in, want := range map[string]gen.Val{
-		"a":      {K: gen.VWord, S: "a"},
-		`x\:y`:   {K: gen.VWord, S: "x:y"},
-		`a\\b`:   {K: gen.VWord, S: `a\b`},
-		`b\*`:    {K: gen.VWord, S: "b*"},
-		"5":      {K: gen.VInt, I: 5},
-		"-3":     {K: gen.VInt, I: -3},
-		"1.5":    {K: gen.VFloat, F: 1.5},
-		`"q r"`:  {K: gen.VQuoted, S: "q r"},
-		`""`:     {K: gen.VQuoted, S: ""},
-		"w*":     {K: gen.VWild, S: "w*"},
-		"/r x/":  {K: gen.VRegexp, S: "/r x/"},
-		"1_000":  {K: gen.VFloat, F: 1000},
+		"a":     {K: gen.VWord, S: "a"},
+		`x\:y`:  {K: gen.VWord, S: "x:y"},
+		`a\\b`:  {K: gen.VWord, S: `a\b`},
+		`b\*`:   {K: gen.VWord, S: "b*"},
+		"5":     {K: gen.VInt, I: 5},
+		"-3":    {K: gen.VInt, I: -3},
+		"1.5":   {K: gen.VFloat, F: 1.5},
+		`"q r"`: {K: gen.VQuoted, S: "q r"},
+		`""`:    {K: gen.VQuoted, S: ""},
+		"w*":    {K: gen.VWild, S: "w*"},
+		"/r x/": {K: gen.VRegexp, S: "/r x/"},
+		"1_000": {K: gen.VFloat, F: 1000},
 	} {
 		d := Decode(in)
 		if !d.Known || d.Val.K != want.K || d.Val.S != want.S || d.Val.I != want.I || d.Val.F != want.F {
